@@ -90,9 +90,17 @@ def solve_triangular(a, b, lower=False, **kw):
     return toarr(A.LUsolve(tomat(b)).applyfunc(sp.cancel), _np.asarray(b).shape)
 
 
+KNOWN_INVERSES = []      # (A, W, iszero): matrices registered by a property with A W == I (re-verified on every lookup with `iszero`)
+
+
 class LU:
     def __init__(self, a):
         self.A = tomat(a)
+        self.W = None
+        for A0, W, iszero in KNOWN_INVERSES:
+            if A0.shape == self.A.shape and all(iszero(x) for x in (self.A - A0)) and all(iszero(x) for x in (A0 * W - sp.eye(A0.rows))):
+                self.W = W
+                break
 
 
 def lu_factor(a, **kw):
@@ -100,7 +108,7 @@ def lu_factor(a, **kw):
         import scipy.linalg as _la
         return _la.lu_factor(a, **kw)
     f = LU(a)
-    if _singular(f.A):
+    if f.W is None and _singular(f.A):
         from scipy.linalg import LinAlgWarning
         warnings.warn("Diagonal number 1 is exactly zero. Singular matrix.", LinAlgWarning, stacklevel=2)
     return f
@@ -112,6 +120,9 @@ def lu_solve(lup, b, trans=0, **kw):
         if _isnum(b):
             return _la.lu_solve(lup, b, trans=trans, **kw)
         raise TypeError("numeric LU factor applied to a symbolic right-hand side")
+    if lup.W is not None:
+        W = lup.W.T if trans else lup.W
+        return toarr((W * tomat(b)).applyfunc(sp.expand), _np.asarray(b).shape)
     A = lup.A.T if trans else lup.A
     X = A.LUsolve(tomat(b))
     return toarr(X.applyfunc(_light), _np.asarray(b).shape)
